@@ -663,7 +663,7 @@ def dispatch_statements(block, runvar="run_number"):
 
 
 # ------------------------------------------------------------------------------------------------ semantic fallback
-def reconstruct(what, runs, domains, known, matches, no_map):
+def reconstruct(what, runs, domains, known, matches, no_map, more=None):
     """Reconstruct the dispatches the front end could not read from the implementation's answers.
 
     runs     candidate run numbers (sorted; contain 0, u32::MAX-1, u32::MAX)
@@ -671,14 +671,19 @@ def reconstruct(what, runs, domains, known, matches, no_map):
     known    {family: canonical arms} for the families that were read syntactically
     matches(selection {family: value | None}, run) -> bool : does this selection reproduce the implementation's COMPLETE answer
     no_map(run) -> bool : the implementation answers "no map" for every entry at this run
+    more([run, ..])     : make the implementation's answers for further runs available (None: no refinement)
 
     Where the implementation has no map at all, a dispatch that is hidden behind another one's error cannot be observed:
     every reconstructed dispatch says None there (the composition is the same function of the run number).
+    When two consecutive candidates that are not neighbouring integers select differently, the boundary is not at a
+    literal of the source: it is located by bisection (one change per gap assumed, as everywhere between candidates).
     returns {family: canonical arms} for the families not in `known`; with every family known this is a pure check."""
     import itertools
     unknown = [f for f in domains if f not in known]
     samples = {f: {} for f in unknown}
-    for r in runs:
+    chosen = {}
+
+    def evaluate(r):
         sel = {f: apply_arms(known[f], r) for f in known}
         choice = None
         if no_map(r):
@@ -702,4 +707,25 @@ def reconstruct(what, runs, domains, known, matches, no_map):
                            % (what, r, "" if unknown else " under the dispatch read from the source"))
         for f in unknown:
             samples[f][r] = choice[f]
+        chosen[r] = tuple(choice[f] for f in unknown)
+
+    for r in runs:
+        evaluate(r)
+    budget = [400]
+
+    def refine(a, b):
+        if b - a <= 1 or chosen[a] == chosen[b]:
+            return
+        budget[0] -= 1
+        if budget[0] < 0:
+            raise GenError("%s: the dispatch changes at too many places that are not literals of the source" % what)
+        m = (a + b) // 2
+        more([m])
+        evaluate(m)
+        refine(a, m)
+        refine(m, b)
+    if more is not None and unknown:
+        pts = sorted(r for r in runs if r != U32_MAX)          # u32::MAX is a point of its own (PEq)
+        for a, b in zip(pts, pts[1:]):
+            refine(a, b)
     return {f: canonical_arms(samples[f]) for f in unknown}
